@@ -183,3 +183,20 @@ Qed.
 Example C13_threads_exist :
   forallb (fun sk => forallb (fun c => negb (Nat.eqb (List.length (class_threads sk (snd c))) 0%nat)) (sk_classes sk)) skeletons = true.
 Proof. vm_compute. reflexivity. Qed.
+
+(* the deadline setters acquire no mutex: they are what a caller uses to wake a Read or Write parked inside the
+   transport with the read- or write-half mutex held (on the skeleton regenerated from the sources; the three
+   setters exist in both stacks: C13Extra.c13_setters_exist) *)
+From V Require Import Proofs.C13Extra.
+Theorem C13_deadline_setters_take_no_lock : forall sk e,
+  In sk skeletons -> In e (setter_entries sk) -> no_lock_acts (main_thread sk e) = true.
+Proof. exact c13_setters_take_no_lock. Qed.
+Print Assumptions C13_deadline_setters_take_no_lock.
+
+(* the protocol adapter's Read and Write reach the wrapped connection's blocking Read / Write, and never with the
+   adapter's detection lock held: a Write parked in the transport cannot keep a concurrent Read out *)
+Theorem C13_adapter_io_outside_its_lock : forall sk e,
+  In sk skeletons -> In e (adapter_entries sk) ->
+  wrapped_io_unlocked sk [] (main_thread sk e) = true /\ has_wrapped_io sk (main_thread sk e) = true.
+Proof. exact c13_adapter_io_outside_its_lock. Qed.
+Print Assumptions C13_adapter_io_outside_its_lock.
